@@ -52,6 +52,10 @@ package rpc
 
 //@ func parseResult
 //@   safety[C04]
+//@   modifies ghost.lastCode.*
+//@   modifies ghost.lastMsg.*
+//@   modifies ghost.nParsed at 0
+//@   ensures[C04] result1.Code == gstr(lastCode, 0) && result1.Message == gstr(lastMsg, 0) && ghost(nParsed, 0) == old(ghost(nParsed, 0)) + 1
 //@   ensures[C04] result1.Code == gstr(respCode, RK(resp))
 //@   ensures[C04] result1.Message == gstr(respMsg, RK(resp))
 //@   ensures[C04] result1.Code != "ok" ==> result0 == nil
@@ -80,7 +84,9 @@ package rpc
 //@ func (builder).buildResponse
 //@   safety[C04]
 //@   requires buf != nil
-//@   modifies ghost.*
+//@   modifies ghost.wCode.*
+//@   modifies ghost.wMsg.*
+//@   modifies ghost.errMade at 0
 //@   modifies @WRITER
 //@   modifies @BUF
 //@   ensures[C04] result1 == nil ==> ghost(errMade, 0) == old(ghost(errMade, 0))
@@ -96,7 +102,12 @@ package rpc
 //@   ensures result == gstr(stMsg, RK(m))
 //@ func (Response).Status
 //@   trusted
+//@   modifies ghost.lastCode.*
+//@   modifies ghost.lastMsg.*
+//@   modifies ghost.nParsed at 0
 //@   ensures gstr(stCode, RK(result)) == gstr(respCode, RK(m)) && gstr(stMsg, RK(result)) == gstr(respMsg, RK(m))
+//@   ensures gstr(lastCode, 0) == gstr(respCode, RK(m)) && gstr(lastMsg, 0) == gstr(respMsg, RK(m))
+//@   ensures ghost(nParsed, 0) == old(ghost(nParsed, 0)) + 1
 //@ func (Response).Result
 //@   trusted
 //@   ensures obj(result) == ghost(resO, RK(m)) && off(result) == ghost(resF, RK(m)) && len(result) == ghost(resL, RK(m))
@@ -150,6 +161,7 @@ package rpc
 //@   ensures[C04] s.recvFailed && s.recvError.Code != "ok"
 //@   ensures[C04] old(s.recvFailed) ==> s.recvError == old(s.recvError)
 //@   ensures[C04] !old(s.recvFailed) ==> s.recvError == st
+//@   ensures[C04] s.resultSt == old(s.resultSt)
 
 // The reference-counted state access (atomics) is assumed: acquire hands out the channel's state.
 //@ func (*channel).acquire
@@ -172,17 +184,52 @@ package rpc
 //@   let s = cast(ghost(stateOf, ch), channelState)
 //@   requires ch != nil && ctx != nil && s.logger != nil
 //@   requires s.recvFailed ==> s.recvError.Code != "ok"
-//@   requires s.recvResp && s.resultOK ==> s.resultSt.Code == "ok"
+//@   requires s.recvResp && s.resultOK && s.resultSt.Code != "ok" ==> s.result == nil
 //@   modifies rpc.channelState.*
 //@   modifies status.*
 //@   modifies ghost.errMade at 0
+//@   modifies ghost.lastCode.*
+//@   modifies ghost.lastMsg.*
+//@   modifies ghost.nParsed at 0
 //@   ensures[C04] result1.Code == "ok" ==> ghost(errMade, 0) == old(ghost(errMade, 0))
+//@   ensures[C04] result1.Code == "ok" && !old(s.recvResp) ==> ghost(nParsed, 0) == old(ghost(nParsed, 0)) + 1 && gstr(lastCode, 0) == "ok"
+//@   ensures[C04] !old(s.recvResp) && ghost(nParsed, 0) != old(ghost(nParsed, 0)) ==> result1.Code == gstr(lastCode, 0) && result1.Message == gstr(lastMsg, 0)
+//@   ensures[C04] old(s.recvResp) && old(s.resultOK) && !old(s.recvFailed) && result1.Code != "closed" ==> result1 == old(s.resultSt)
 //@   ensures[C04] old(s.recvFailed) ==> (result1 == old(s.recvError) || result1.Code == "closed") && result0 == nil
 //@   ensures[C04] s.recvFailed ==> s.recvError.Code != "ok"
 //@   ensures[C04] result1.Code != "ok" ==> result0 == nil
 //@   loop 1 modifies rpc.channelState.recvEnd
 //@   loop 1 modifies ghost.errMade at 0
-//@   loop 1 invariant ghost(errMade, 0) == old(ghost(errMade, 0)) && !s.recvFailed
+//@   loop 1 invariant ghost(errMade, 0) == old(ghost(errMade, 0)) && !s.recvFailed && ghost(nParsed, 0) == old(ghost(nParsed, 0))
+
+//@ func (*channelState).receiveAsync
+//@   trusted
+//@   modifies ghost.errMade at 0
+//@   ensures result2.Code != "ok" ==> ghost(errMade, 0) == 1
+//@   ensures result2.Code == "ok" ==> ghost(errMade, 0) == old(ghost(errMade, 0))
+
+// ReceiveAsync: nothing is delivered after the end marker or the response; failures are sticky;
+// a response that arrives while streaming is stored with exactly the status it carries.
+//@ func (*channel).ReceiveAsync
+//@   safety[C04]
+//@   let s = cast(ghost(stateOf, ch), channelState)
+//@   requires ch != nil && ctx != nil && s.logger != nil
+//@   requires s.recvFailed ==> s.recvError.Code != "ok"
+//@   requires s.recvResp && s.resultOK && s.resultSt.Code != "ok" ==> s.result == nil
+//@   modifies rpc.channelState.*
+//@   modifies status.*
+//@   modifies ghost.errMade at 0
+//@   modifies ghost.lastCode.*
+//@   modifies ghost.lastMsg.*
+//@   modifies ghost.nParsed at 0
+//@   ensures[C04] result2.Code == "ok" ==> ghost(errMade, 0) == old(ghost(errMade, 0))
+//@   ensures[C04] s.recvResp && !old(s.recvResp) ==> s.resultOK && s.resultSt.Code == gstr(lastCode, 0) && s.resultSt.Message == gstr(lastMsg, 0) && ghost(nParsed, 0) == old(ghost(nParsed, 0)) + 1
+//@   ensures[C04] old(s.recvFailed) ==> (result2 == old(s.recvError) || result2.Code == "closed") && !result1
+//@   ensures[C04] old(s.recvEnd) && !old(s.recvFailed) ==> (result2.Code == "end" || result2.Code == "closed") && !result1
+//@   ensures[C04] result1 ==> result2.Code == "ok"
+//@   ensures[C04] s.recvFailed ==> s.recvError.Code != "ok"
+//@   ensures[C04] s.recvResp && s.resultOK && s.resultSt.Code != "ok" ==> s.result == nil
+//@   ensures[C04] old(s.recvEnd) ==> s.recvEnd
 
 //@ package github.com/basecomplextech/spec/proto/prpc
 //@ func (Message).Type
@@ -192,4 +239,73 @@ package rpc
 //@ func (Message).Msg
 //@   trusted
 //@ func (Message).Req
+//@   trusted
+
+//@ package github.com/basecomplextech/spec/rpc
+
+// ---- server side (C04): one handler invocation per request; the response carries its status
+//@ func (*serverChannel).acquire
+//@   trusted
+//@   ensures result1 ==> result0 != nil && obj(result0) == ghost(stateOf, ch) && off(result0) == 0
+//@ func (*serverChannel).release
+//@   trusted
+//@ func (*serverChannel).Free
+//@   trusted
+//@ func (*serverChannel).Method
+//@   trusted
+//@ func newServerChannel
+//@   trusted
+//@   ensures result != nil && cast(ghost(stateOf, result), serverChannelState).ch == ch
+
+//@ func (*serverChannel).SendResponse
+//@   safety[C04]
+//@   let s = cast(ghost(stateOf, ch), serverChannelState)
+//@   requires ch != nil && s.ch != nil
+//@   modifies ghost.wCode.*
+//@   modifies ghost.wMsg.*
+//@   modifies ghost.errMade at 0
+//@   modifies ghost.nClose at 0
+//@   modifies @WRITER
+//@   modifies @BUF
+//@   ensures[C04] result.Code == "ok" ==> ghost(nClose, 0) == old(ghost(nClose, 0)) + 1 && ghost(errMade, 0) == old(ghost(errMade, 0))
+//@   ensures[C04] result.Code == "ok" ==> gstr(wCode, 0) == st.Code && gstr(wMsg, 0) == st.Message
+//@   ensures[C04] ghost(nClose, 0) == old(ghost(nClose, 0)) || ghost(nClose, 0) == old(ghost(nClose, 0)) + 1
+
+// the handler call (recover turns a panic into a status): recorded, not verified
+//@ func (*server).handleRequest
+//@   trusted
+//@   modifies ghost.nHandle at 0
+//@   modifies ghost.hCode.*
+//@   modifies ghost.hMsg.*
+//@   ensures ghost(nHandle, 0) == old(ghost(nHandle, 0)) + 1
+//@   ensures result1.Code == gstr(hCode, 0) && result1.Message == gstr(hMsg, 0)
+
+//@ func (*server).HandleChannel
+//@   safety[C04]
+//@   requires s != nil && ch != nil && ctx != nil && s.logger != nil
+//@   modifies ghost.wCode.*
+//@   modifies ghost.wMsg.*
+//@   modifies ghost.errMade at 0
+//@   modifies ghost.nClose at 0
+//@   modifies ghost.nHandle at 0
+//@   modifies ghost.hCode.*
+//@   modifies ghost.hMsg.*
+//@   modifies @WRITER
+//@   modifies @BUF
+//@   assert[C04] after ch1: typ == 1 && err == nil && st.Code == "ok"
+//@   let H0 = old(ghost(nHandle, 0))
+//@   let C0 = old(ghost(nClose, 0))
+//@   ensures[C04] ghost(nHandle, 0) == H0 || ghost(nHandle, 0) == H0 + 1
+//@   ensures[C04] ghost(nHandle, 0) == H0 ==> result.Code != "ok" && ghost(nClose, 0) == C0
+//@   ensures[C04] ghost(nHandle, 0) == H0 + 1 && gstr(hCode, 0) == "skip_response" ==> ghost(nClose, 0) == C0
+//@   ensures[C04] ghost(nHandle, 0) == H0 + 1 && gstr(hCode, 0) != "skip_response" && result.Code == "ok" ==>
+//@        ghost(nClose, 0) == C0 + 1 && gstr(wCode, 0) == gstr(hCode, 0) && gstr(wMsg, 0) == gstr(hMsg, 0)
+
+//@ package github.com/basecomplextech/spec/proto/prpc
+//@ func ParseMessage
+//@   trusted
+//@   modifies ghost.errMade at 0
+//@   ensures result2 != nil ==> ghost(errMade, 0) == 1
+//@   ensures result2 == nil ==> ghost(errMade, 0) == old(ghost(errMade, 0))
+//@ func (Message).Unwrap
 //@   trusted
